@@ -303,6 +303,21 @@ CONTRACTS = [
                          "and sel(self, k, order, size, up_to) else 0) for k in Key)"},
       invariants={0: {"edges": "all(count(edges, k) == (1 if count(_done0, k) >= 1 and time_window[0] <= fst(k) and fst(k) < time_window[1] else 0) for k in Key)",
                       "done01": "all(count(_done0, k) <= 1 for k in Key)"}}),
+    Contract(f"{CLS}.get_nodes@md", FILE, [CLS, "get_nodes"], self_cls=CLS, properties=["C03", "C19"],
+      params={"metadata": "Bool"}, fixed={"metadata": True}, result="Map[Int,Meta]", pure=True,
+      requires={"wf": "wf(self)"},
+      ensures={"dom": "all((n in result) == (n in V(self)) for n in Node)",
+               "val": "all(result[n] == NM(self, n) for n in V(self))"}),
+    Contract(f"{CLS}.get_edges@md", FILE, [CLS, "get_edges"], self_cls=CLS, properties=["C03", "C19"],
+      params={"time_window": "Opt[Pair[Int,Int]]", "order": "Opt[Int]", "size": "Opt[Int]", "up_to": "Bool", "metadata": "Bool"},
+      fixed={"metadata": True}, result="Map[Key,Meta]", pure=True, locals={"edges": "Bag[Key]"},
+      requires={"wf": "wf(self)"},
+      raises={"ValueError": "order is not None and size is not None"},
+      ensures={"dom": "all((k in result) == (k in E(self) and (time_window is None or (time_window[0] <= fst(k) and fst(k) < time_window[1])) "
+                      "and sel(self, k, order, size, up_to)) for k in Key)",
+               "val": "all(implies(k in result, result[k] == M(self, k)) for k in E(self))"},
+      invariants={0: {"edges": "all(count(edges, k) == (1 if count(_done0, k) >= 1 and time_window[0] <= fst(k) and fst(k) < time_window[1] else 0) for k in Key)",
+                      "done01": "all(count(_done0, k) <= 1 for k in Key)"}}),
     C("get_times_for_edge", params={"edge": "NodeSeq"}, result="Bag[Int]", pure=True, locals={"times": "Bag[Int]"},
       requires={"wf": "wf(self)"},
       ensures={"result": "all(count(result, t) == (1 if pair(t, canon(edge)) in E(self) else 0) for t in Int)"},
